@@ -140,10 +140,8 @@ def shadowOf (s : Spec) (m : M4 Q) : M4 Q :=
     ⟨⟨b, b, b, 0⟩, ⟨b, b, b, 0⟩, ⟨b, b, b, 0⟩, ⟨0, 0, 0, 1⟩⟩
   | _ => absM m
 
-/-- `c1.then(c2)…then(cn)` -/
-def product : List (M4 Q) → M4 Q
-  | [] => M4.identity
-  | m :: ms => ms.foldl (fun acc c => acc.andThen c) m
+/-- `c1.then(c2)…then(cn)`: the model's `M4.chain`. -/
+def product (ms : List (M4 Q)) : M4 Q := M4.chain ms
 
 /-- Π over rows of the row sums of |m|: an upper bound of every term of the determinant. -/
 def detScale (m : M4 Q) : Q :=
@@ -237,8 +235,8 @@ def scaleTol (sh : M4 Q) : List Q := (M4.toList sh).map (· * rel)
 def probeTol (sh : M4 Q) (p : V3 Q) : List Q :=
   (V3.toList (sh.applyPt (absV3 p))).map (· * rel)
 
-def nestedPt (ms : List (M4 Q)) (p : V3 Q) : V3 Q := ms.foldl (fun q c => c.applyPt q) p
-def nestedVec (ms : List (M4 Q)) (p : V3 Q) : V3 Q := ms.foldl (fun q c => c.apply q) p
+def nestedPt (ms : List (M4 Q)) (p : V3 Q) : V3 Q := applyPtSeq ms p
+def nestedVec (ms : List (M4 Q)) (p : V3 Q) : V3 Q := applySeq ms p
 
 def parseProbes : Nat → List String → Option (List (V3 Q))
   | 0, _ => some []
